@@ -16,6 +16,24 @@ import GlmVerif.Props.C01.T_rel_greaterThan
 import GlmVerif.Props.C01.T_rel_greaterThanEqual
 import GlmVerif.Props.C01.T_rel_equal
 import GlmVerif.Props.C01.T_rel_notEqual
+import GlmVerif.Props.C01.T_iop_add
+import GlmVerif.Props.C01.T_iop_sub
+import GlmVerif.Props.C01.T_iop_mul
+import GlmVerif.Props.C01.T_iop_and
+import GlmVerif.Props.C01.T_iop_or
+import GlmVerif.Props.C01.T_iop_xor
+import GlmVerif.Props.C01.T_iop_shl
+import GlmVerif.Props.C01.T_iop_shr
+import GlmVerif.Props.C01.T_uop_add
+import GlmVerif.Props.C01.T_uop_sub
+import GlmVerif.Props.C01.T_uop_mul
+import GlmVerif.Props.C01.T_uop_and
+import GlmVerif.Props.C01.T_uop_or
+import GlmVerif.Props.C01.T_uop_xor
+import GlmVerif.Props.C01.T_uop_shl
+import GlmVerif.Props.C01.T_uop_shr
+import GlmVerif.Props.C01.T_iop_neg
+import GlmVerif.Props.C01.T_iop_not
 /-! every family table of C01 holds for the model generated from the current /repo -/
 namespace Glm.Props.C01
 open Glm Glm.Spec.C01 Glm.Gen.C01
@@ -37,5 +55,23 @@ theorem all_ok : ∀ f ∈ families, f.ok lookup = true := by
     (Family.ok_congr f_rel_greaterThan (fun ks => by rw [show f_rel_greaterThan.unit = "rel_greaterThan" from rfl, lookup_rel_greaterThan])).trans rel_greaterThan_ok,
     (Family.ok_congr f_rel_greaterThanEqual (fun ks => by rw [show f_rel_greaterThanEqual.unit = "rel_greaterThanEqual" from rfl, lookup_rel_greaterThanEqual])).trans rel_greaterThanEqual_ok,
     (Family.ok_congr f_rel_equal (fun ks => by rw [show f_rel_equal.unit = "rel_equal" from rfl, lookup_rel_equal])).trans rel_equal_ok,
-    (Family.ok_congr f_rel_notEqual (fun ks => by rw [show f_rel_notEqual.unit = "rel_notEqual" from rfl, lookup_rel_notEqual])).trans rel_notEqual_ok⟩
+    (Family.ok_congr f_rel_notEqual (fun ks => by rw [show f_rel_notEqual.unit = "rel_notEqual" from rfl, lookup_rel_notEqual])).trans rel_notEqual_ok,
+    (Family.ok_congr f_iop_add (fun ks => by rw [show f_iop_add.unit = "iop_add" from rfl, lookup_iop_add])).trans iop_add_ok,
+    (Family.ok_congr f_iop_sub (fun ks => by rw [show f_iop_sub.unit = "iop_sub" from rfl, lookup_iop_sub])).trans iop_sub_ok,
+    (Family.ok_congr f_iop_mul (fun ks => by rw [show f_iop_mul.unit = "iop_mul" from rfl, lookup_iop_mul])).trans iop_mul_ok,
+    (Family.ok_congr f_iop_and (fun ks => by rw [show f_iop_and.unit = "iop_and" from rfl, lookup_iop_and])).trans iop_and_ok,
+    (Family.ok_congr f_iop_or (fun ks => by rw [show f_iop_or.unit = "iop_or" from rfl, lookup_iop_or])).trans iop_or_ok,
+    (Family.ok_congr f_iop_xor (fun ks => by rw [show f_iop_xor.unit = "iop_xor" from rfl, lookup_iop_xor])).trans iop_xor_ok,
+    (Family.ok_congr f_iop_shl (fun ks => by rw [show f_iop_shl.unit = "iop_shl" from rfl, lookup_iop_shl])).trans iop_shl_ok,
+    (Family.ok_congr f_iop_shr (fun ks => by rw [show f_iop_shr.unit = "iop_shr" from rfl, lookup_iop_shr])).trans iop_shr_ok,
+    (Family.ok_congr f_uop_add (fun ks => by rw [show f_uop_add.unit = "uop_add" from rfl, lookup_uop_add])).trans uop_add_ok,
+    (Family.ok_congr f_uop_sub (fun ks => by rw [show f_uop_sub.unit = "uop_sub" from rfl, lookup_uop_sub])).trans uop_sub_ok,
+    (Family.ok_congr f_uop_mul (fun ks => by rw [show f_uop_mul.unit = "uop_mul" from rfl, lookup_uop_mul])).trans uop_mul_ok,
+    (Family.ok_congr f_uop_and (fun ks => by rw [show f_uop_and.unit = "uop_and" from rfl, lookup_uop_and])).trans uop_and_ok,
+    (Family.ok_congr f_uop_or (fun ks => by rw [show f_uop_or.unit = "uop_or" from rfl, lookup_uop_or])).trans uop_or_ok,
+    (Family.ok_congr f_uop_xor (fun ks => by rw [show f_uop_xor.unit = "uop_xor" from rfl, lookup_uop_xor])).trans uop_xor_ok,
+    (Family.ok_congr f_uop_shl (fun ks => by rw [show f_uop_shl.unit = "uop_shl" from rfl, lookup_uop_shl])).trans uop_shl_ok,
+    (Family.ok_congr f_uop_shr (fun ks => by rw [show f_uop_shr.unit = "uop_shr" from rfl, lookup_uop_shr])).trans uop_shr_ok,
+    (Family.ok_congr f_iop_neg (fun ks => by rw [show f_iop_neg.unit = "iop_neg" from rfl, lookup_iop_neg])).trans iop_neg_ok,
+    (Family.ok_congr f_iop_not (fun ks => by rw [show f_iop_not.unit = "iop_not" from rfl, lookup_iop_not])).trans iop_not_ok⟩
 end Glm.Props.C01
